@@ -24,6 +24,7 @@ CONSTANTS
   Blk,        \* heap block identities
   Req,        \* abstract request classes (phrase, setting)
   OutcomeOf(_), \* request class -> [k, err, validated, key, tokstar1]
+  FailureTokens, \* the ENABLE_FAILURE_TOKENS build option
   TokenFirst    \* TRUE: the code's order (token, then size check); FALSE: the non-vacuity mutant
 
 \* ---------------------------------------------------------------------------
@@ -66,23 +67,23 @@ CryptRN(o, r, sz) ==
   LET oc == OutcomeOf(r)  x == IF TokenFirst THEN StepCryptRN(obj[o], oc, sz) ELSE StepCryptRN_late(obj[o], oc, sz) IN
   /\ obj' = [obj EXCEPT ![o] = x.d]
   /\ SetErrno(x.err) /\ ret' = x.ret
-  /\ last' = Did("crypt_rn", Judge(Call("crypt_rn", oc, sz, obj[o], x.d, errno, NewErr(x.err), x.ret, FALSE, TRUE, FALSE)))
+  /\ last' = Did("crypt_rn", Judge(Call("crypt_rn", oc, sz, obj[o], x.d, errno, NewErr(x.err), x.ret, FALSE, TRUE, FALSE, FailureTokens)))
   /\ UNCHANGED <<nr, gsbuf, deskey, hnd, heap>>
 
 \* --- crypt_r on a caller object
 CryptR(o, r) ==
-  LET oc == OutcomeOf(r)  x == StepCryptR(obj[o], oc, TRUE) IN
+  LET oc == OutcomeOf(r)  x == StepCryptR(obj[o], oc, FailureTokens) IN
   /\ obj' = [obj EXCEPT ![o] = x.d]
   /\ SetErrno(x.err) /\ ret' = x.ret
-  /\ last' = Did("crypt_r", Judge(Call("crypt_r", oc, "sizeof", obj[o], x.d, errno, NewErr(x.err), x.ret, FALSE, TRUE, FALSE)))
+  /\ last' = Did("crypt_r", Judge(Call("crypt_r", oc, "sizeof", obj[o], x.d, errno, NewErr(x.err), x.ret, FALSE, TRUE, FALSE, FailureTokens)))
   /\ UNCHANGED <<nr, gsbuf, deskey, hnd, heap>>
 
 \* --- crypt (crypt-static.c): crypt_r on the static object
 CryptStatic(r) ==
-  LET oc == OutcomeOf(r)  x == StepCryptR(nr, oc, TRUE) IN
+  LET oc == OutcomeOf(r)  x == StepCryptR(nr, oc, FailureTokens) IN
   /\ nr' = x.d
   /\ SetErrno(x.err) /\ ret' = x.ret
-  /\ last' = Did("crypt", Judge(Call("crypt", oc, "sizeof", nr, x.d, errno, NewErr(x.err), x.ret, FALSE, TRUE, FALSE)))
+  /\ last' = Did("crypt", Judge(Call("crypt", oc, "sizeof", nr, x.d, errno, NewErr(x.err), x.ret, FALSE, TRUE, FALSE, FailureTokens)))
   /\ UNCHANGED <<obj, gsbuf, deskey, hnd, heap>>
 
 \* --- crypt_ra (crypt.c:205-238).  fail = the realloc request fails.
@@ -99,7 +100,7 @@ CryptRA(h, r, fail) ==
     IF fail THEN
       /\ heap' = heapE /\ hnd' = hnd
       /\ errno' = ENOMEM /\ ret' = RNull
-      /\ last' = Did("crypt_ra", Judge(Call("crypt_ra", oc, "sizeof", FreshObj, FreshObj, errno, ENOMEM, RNull, FALSE, TRUE, TRUE)))
+      /\ last' = Did("crypt_ra", Judge(Call("crypt_ra", oc, "sizeof", FreshObj, FreshObj, errno, ENOMEM, RNull, FALSE, TRUE, TRUE, FailureTokens)))
       /\ UNCHANGED <<obj, nr, gsbuf, deskey>>
     ELSE
       \E nb \in Blk :
@@ -116,7 +117,7 @@ CryptRA(h, r, fail) ==
               /\ ret' = IF IsTok(x.d.out) THEN RNull ELSE ROut
               /\ last' = Did("crypt_ra", Judge(Call("crypt_ra", oc, "sizeof", FreshObj, x.d, errno, NewErr(x.err),
                                      IF IsTok(x.d.out) THEN RNull ELSE ROut, TRUE,
-                                     (cur.blk = NullBlk \/ ~erasable \/ heapE[cur.blk].erased), FALSE)))
+                                     (cur.blk = NullBlk \/ ~erasable \/ heapE[cur.blk].erased), FALSE, FailureTokens)))
         /\ UNCHANGED <<obj, nr, gsbuf, deskey>>
   ELSE
     LET b  == cur.blk
@@ -128,7 +129,7 @@ CryptRA(h, r, fail) ==
     /\ SetErrno(x.err)
     /\ ret' = IF IsTok(x.d.out) THEN RNull ELSE ROut
     /\ last' = Did("crypt_ra", Judge(Call("crypt_ra", oc, "sizeof", heap[b].d, x.d, errno, NewErr(x.err),
-                             IF IsTok(x.d.out) THEN RNull ELSE ROut, FALSE, TRUE, FALSE)))
+                             IF IsTok(x.d.out) THEN RNull ELSE ROut, FALSE, TRUE, FALSE, FailureTokens)))
     /\ UNCHANGED <<obj, nr, gsbuf, deskey>>
 
 \* --- environment: the application sets a handle to (NULL | a malloc'd block) x a recorded size,
